@@ -11,7 +11,8 @@ RULE = ('case = generated annotation with mass-resolvable modifications of every
         'least two kinds of which one is not a plain residue modification')
 ASSUMPTIONS = [
     'reference shifts per site come from pv/refmods.py / pv/refchem.py; the per-site clause is asserted only for inputs whose modifications all have a definite site',
-    'mass tolerance: 10^-precision x number of shifts written (+1e-6 for the documented 1e-6 significance threshold per residue)',
+    'mass tolerance: half a unit of the precision per shift written (+2e-6 per residue whose net shift is below the documented 1e-6 significance threshold; +1e-4 per named modification under an isotope label, C03 tolerance)',
+    'static N-Term / C-Term rules: only the mass clause is asserted (the library writes the rule on the first / last residue, the property does not say whether terminus or terminal residue)',
 ]
 
 KINDS = ('labile', 'static', 'isotope', 'unknown', 'nterm', 'cterm', 'internal', 'intervals', 'charge', 'adducts')
@@ -92,7 +93,7 @@ def check_case(case) -> Result:
             else:
                 C = refmass.adduct_mass_library_quirk(pep['adducts'], True) if pep['adducts'] is not None else pep['charge'] * refchem.PROTON
         U = refmods.mods_mass(pep['unknown'], True)
-        T = sum(refmods.mods_mass(ms, True) * sum(1 for t in tg if t in ('N-Term', 'C-Term')) for ms, tg in pep['static'])
+        T = 0.0  # static N-Term / C-Term rules stay with their terminus since fix 99d59c3
         I = sum((e - st_ - 1) * refmods.mods_mass(ms, True) for st_, e, _a, ms in pep['intervals'])
         W = _label_delta(pep['isotope'], refchem.WATER)
         # the charge of the input is dropped from the output string: the input mass contains it once, the output n times
